@@ -548,6 +548,14 @@ def r09_8(chk, P, E):
             atoms = expand(F, A.prov_at(F.ex[e]['c'][1], e), 0, ())
             st = [a for a in atoms if a[0] == 'state']
             if not st:
+                # the scan itself must take a found link's serial number / data offset from its own header fetch: a value
+                # that only copies table entries or constants describes some other link
+                if F.name in BUILDERS and tab in ('serialnos', 'dataoffsets') and atoms and \
+                        all(a[0] in ('table', 'param') for a in atoms):
+                    n += 1
+                    chk.ob('R09.8', F.name, f'{tab}-entry-from-this-links-header-fetch@{F.s(F.ex[e]["c"][0])}', False, F.where(e),
+                           f'{F.s(e)[:70]}: the value derives only from {sorted({a[0] + ":" + str(a[1]) for a in atoms})} -- not from the '
+                           'stream state after this link\'s header fetch: the entry repeats another link\'s value')
                 continue
             bad = [a for a in st if not (a[2] == 'entry' or (a[2][0] == 'call' and a[2][1] == H.name))]
             n += 1
